@@ -184,6 +184,25 @@ def pruned(rc):
                     rc.fail(m, n, f"BeliefPropagation.{name} re-builds the clique tree (`{norm(n, 80)}`)" + (" from the PRUNED network" if from_pruned else "") +
                             ": the pruned ancestral graph can be disconnected (independent query/evidence variables), and a disconnected network has no junction tree — such queries raise",
                             construct=f"{name} rebuilds junction tree")
+        # re-running the constructor on anything but the saved original model rebuilds the clique tree as well
+        saved = {b_["_OM"] for _, b_ in tm.find_all(m.node, "_OM = self.model.copy()")}
+        pruned_names = set()
+        for n in walk_no_nested(m.node):
+            if isinstance(n, ast.Assign) and isinstance(n.value, ast.Call) and call_name(n.value) == "_prune_bayesian_model":
+                tg = n.targets[0]
+                for x in (tg.elts if isinstance(tg, ast.Tuple) else [tg]):
+                    pruned_names.add(norm(x))
+        for n in walk_no_nested(m.node):
+            if isinstance(n, ast.Call) and norm(n.func) == "self.__init__" and n.args:
+                a0 = norm(n.args[0])
+                if a0 in saved:
+                    continue
+                from_pruned = a0 in pruned_names or (a0 == "self.model" and bool(prunes) and n.lineno > min(prunes)) or \
+                    (isinstance(n.args[0], ast.Call) and call_name(n.args[0]) == "_prune_bayesian_model")
+                if guard and from_pruned:
+                    rc.fail(m, n, f"BeliefPropagation.{name} re-initialises the engine on the PRUNED network (`{norm(n, 70)}`): the constructor rebuilds the clique tree from it, and the pruned "
+                            "ancestral graph can be disconnected (independent query/evidence variables) — a disconnected network has no junction tree, such queries raise",
+                            construct=f"{name} rebuilds junction tree")
         rc.ob(f"BeliefPropagation.{name}: prune sites {len(prunes)}; clique tree left as built at construction")
     init = cls.methods["__init__"]
     if not any(isinstance(n, ast.Assign) and any(norm(t) == "self.junction_tree" for t in n.targets) for n in walk_no_nested(init.node)):
@@ -206,6 +225,9 @@ def defuse(rc):
     _sh.defuse_rule(rc, _sh.anchor_files("C02"))
 
 MUTANTS = [
+    dict(kind="break", name="bp-engine-reinitialised-on-pruned-network", file=EI, expect="C02.pruned",
+         old="                self.model, evidence = self._prune_bayesian_model(variables, evidence)\n            self._initialize_structures()\n\n            # Step 4: Run inference.",
+         new="                pruned_model, evidence = self._prune_bayesian_model(variables, evidence)\n                self.__init__(pruned_model)\n            self._initialize_structures()\n\n            # Step 4: Run inference."),
     dict(kind="break", name="bp-tree-from-pruned-network", file=EI, expect="C02.pruned",
          old="                self.model, evidence = self._prune_bayesian_model(variables, evidence)\n            self._initialize_structures()\n\n            # Step 4: Run inference.",
          new="                self.model, evidence = self._prune_bayesian_model(variables, evidence)\n                self.junction_tree = self.model.to_junction_tree()\n                self.clique_beliefs, self.sepset_beliefs = {}, {}\n            self._initialize_structures()\n\n            # Step 4: Run inference."),
